@@ -436,6 +436,10 @@ func (x *exec) opPut() {
 	}
 	if !reuse {
 		obj = gen.TopLevel(x.t, lbl+".obj", x.opts())
+		if !x.r.SmallValues && x.t.Bool(lbl+".wide", 1, 40) {
+			obj = wideObject(x.t, lbl+".wideobj")
+			x.res.Probes["wide object (hundreds of sibling containers)"]++
+		}
 	}
 	snap := x.snapshot("put", obj)
 	x.res.OpNames = append(x.res.OpNames, fmt.Sprintf("put %d", ref.Number()))
@@ -443,6 +447,41 @@ func (x *exec) opPut() {
 		return
 	}
 	x.record(ref, &Expect{Obj: snap, How: "put"})
+}
+
+// wideObject draws one object with hundreds of sibling arrays or
+// dictionaries on one level (a /W array of a CID font, a dictionary with many
+// array-valued entries): wide, not deep.
+func wideObject(t *tape.Tape, lbl string) pdf.Object {
+	n := tape.Pick(t, lbl+".n", 40, 255, 256, 257, 300, 1000)
+	leaf := func(i int) pdf.Object {
+		switch t.Draw(lbl+".leaf", 3) {
+		case 0:
+			return pdf.Array{pdf.Integer(500 + i)}
+		case 1:
+			return pdf.Dict{"V": pdf.Integer(i)}
+		}
+		return pdf.Array{pdf.Array{}, pdf.Dict{}}
+	}
+	switch t.Draw(lbl+".shape", 3) {
+	case 0:
+		a := pdf.Array{}
+		for i := 0; i < n; i++ {
+			a = append(a, pdf.Integer(i), leaf(i))
+		}
+		return a
+	case 1:
+		d := pdf.Dict{}
+		for i := 0; i < n; i++ {
+			d[pdf.Name(fmt.Sprintf("K%d", i))] = leaf(i)
+		}
+		return d
+	}
+	a := pdf.Array{}
+	for i := 0; i < n; i++ {
+		a = append(a, leaf(i))
+	}
+	return pdf.Dict{"W": a, "Type": pdf.Name("Wide")}
 }
 
 func (x *exec) opBulk() {
